@@ -8,6 +8,7 @@ import (
 	"go/ast"
 	"go/parser"
 	"go/types"
+	"sort"
 	"strings"
 )
 
@@ -101,7 +102,22 @@ func (x *Exec) evalCall(st *State, e *ast.CallExpr) []Val {
 			st.note("call " + shortKey(key))
 			x.runEvent(st, e, ev, binds)
 		}
-		return x.applyContract(st, e, key, spec.Clauses, names, args, sig.Results(), info.TypeOf(e))
+		pollsStop := false
+		for _, c := range spec.Clauses {
+			if c.Kind == "ensures" && c.Label == "polls" {
+				pollsStop = true
+			}
+		}
+		var before Val
+		if pollsStop {
+			before = (&SEnv{x: x, st: st, pkg: x.fn.pkgPath()}).eval(&SX{Op: "id", Name: "gStop", Pos: "engine"})
+		}
+		res := x.applyContract(st, e, key, spec.Clauses, names, args, sig.Results(), info.TypeOf(e))
+		if pollsStop {
+			after := (&SEnv{x: x, st: st, pkg: x.fn.pkgPath()}).eval(&SX{Op: "id", Name: "gStop", Pos: "engine"})
+			st.polls = append(st.polls, poll{fmt.Sprintf("call[%d:%s]", x.ordinal(e), lastName(key)), and(after.T, not(before.T))})
+		}
+		return res
 	}
 	// call through a function value
 	ft := info.TypeOf(e.Fun)
@@ -209,6 +225,7 @@ func (x *Exec) applyContract(st *State, site ast.Node, key string, clauses []*Cl
 	nr := x.freshConst("nextref", "Int")
 	st.assume(app(">=", nr, st.nextref))
 	st.nextref = nr
+	x.bumpPolls(st)
 	var res []Val
 	if results != nil {
 		for i := 0; i < results.Len(); i++ {
@@ -256,6 +273,19 @@ func sortOfName(e *SX) string {
 		return "T"
 	}
 	return ""
+}
+
+// bumpPolls: the poll counter gPolls (C16) never decreases; it is exempt from frame
+// declarations and is havocked monotonically at calls and loop heads.
+func (x *Exec) bumpPolls(st *State) {
+	env := &SEnv{x: x, st: st, pkg: x.fn.pkgPath()}
+	if env.ghostDecl("gPolls") == nil {
+		return
+	}
+	old := env.eval(&SX{Op: "id", Name: "gPolls", Pos: "engine"})
+	c := x.freshConst("g_gPolls", "Int")
+	st.assume(app(">=", c, old.T))
+	st.heap["g_gPolls"] = Val{T: c, S: "Int"}
 }
 
 func keyPkg(key string) string {
@@ -430,7 +460,13 @@ func (x *Exec) evalBuiltin(st *State, e *ast.CallExpr, name string) []Val {
 				}
 			}
 			p, k := typeKey(n)
-			for gk, g := range x.sp.Ghosts {
+			var gks []string
+			for gk := range x.sp.Ghosts {
+				gks = append(gks, gk)
+			}
+			sort.Strings(gks)
+			for _, gk := range gks {
+				g := x.sp.Ghosts[gk]
 				if g.Field && strings.HasPrefix(gk, "field:"+p+"."+k+".") {
 					fname := gk[len("field:"+p+"."+k+"."):]
 					x.writeField(st, obj, fname, Val{T: x.w.zero(g.Sort), S: g.Sort})
@@ -665,8 +701,13 @@ func chanElem(t types.Type) types.Type {
 }
 
 func (x *Exec) bindWild(st *State, wild map[string]ast.Expr, binds map[string]Val) {
-	for k, e := range wild {
-		binds[k] = x.eval(st, e)
+	var ks []string
+	for k := range wild {
+		ks = append(ks, k)
+	}
+	sort.Strings(ks)
+	for _, k := range ks {
+		binds[k] = x.eval(st, wild[k])
 	}
 }
 
